@@ -19,6 +19,7 @@ VARS = ["IA", "JB", "KC", "ND", "ME"]
 class G:
     def __init__(self, rng):
         self.rng = rng; self.funcs = []; self.loop_depth = 0; self.in_func = False; self.nloops = 0; self.ncalls = 0; self.names = list(VARS)
+        self.subs = False      # wrap some statement runs in `Sub{ … }` (script stream only)
     def expr(self, d, allow_call=True):
         r = self.rng
         if d == 0 or r.random() < 0.35:
@@ -43,6 +44,9 @@ class G:
         return [self.stmt(d) for _ in range(n if n is not None else self.rng.randrange(1, 4))]
     def stmt(self, d):
         r = self.rng; x = r.random()
+        if self.subs and d > 0 and r.random() < 0.12:
+            # `Sub{X}` only restores the time pointer: BREAK / CONTINUE / RETURN inside it act on the enclosing loop or call as if written bare
+            return ("sub", self.block(d - 1))
         if d > 0 and x < 0.14:
             return ("if", self.cond(), self.block(d - 1), self.block(d - 1) if r.random() < 0.5 else [])
         if d > 0 and x < 0.26 and self.loop_depth < 3:
@@ -97,6 +101,7 @@ def flat(stmts):
         elif s[0] == "if": out.append(("if", s[1], flat(s[2]), flat(s[3])))
         elif s[0] == "while": out.append(("while", s[1], flat(s[2])))
         elif s[0] == "for": out.append(("for", s[1], s[2], s[3], s[4], flat(s[5])))
+        elif s[0] == "sub": out.append(("sub", flat(s[1])))
         else: out.append(s)
     return out
 
@@ -123,6 +128,7 @@ def ps(stmts):
         elif k == "continue": out.append("CONTINUE")
         elif k == "ret": out.append("RETURN(%s);" % pe(s[1]))
         elif k == "call": out.append("%s(%s);" % (s[1], ", ".join(pe(a) for a in s[2])))
+        elif k == "sub": out.append("Sub{ %s }" % ps(s[1]))
     return " ".join(out)
 def se(e):
     k = e[0]
@@ -145,10 +151,14 @@ def ss(stmts):
         elif k == "continue": out.append("(continue)")
         elif k == "ret": out.append("(ret %s)" % se(s[1]))
         elif k == "call": out.append("(call %s (%s))" % (s[1], " ".join(se(a) for a in s[2])))
+        elif k == "sub":
+            inner = ss(s[1])[1:-1]
+            if inner: out.append(inner)
     return "(" + " ".join(out) + ")"
 
 def gen_case(rng, sharp=True):
     g = G(rng)
+    g.subs = sharp
     nf = rng.choice([0, 0, 1, 2, 3])
     for i in range(nf):
         f = g.func(i)
@@ -195,6 +205,11 @@ FIXED = [
     ("INT N=0-3 WHILE(N){ PRINT(N) n60 N++ } PRINT(N)", "(() ((decl N (b 4 0 3)) (while N ((print N) (note 60) (inc N 1))) (print N)))"),
     ("FOR(INT I=0-2; I; I++){ PRINT(I) n61 } PRINT(I)", "(() ((for I (b 4 0 2) I (inc I 1) ((print I) (note 61))) (print I)))"),
     ("INT N=0-2 IF(N){ PRINT(1) }ELSE{ PRINT(2) } WHILE(N+1){ N++ PRINT(N) }", "(() ((decl N (b 4 0 2)) (if N ((print 1)) ((print 2))) (while (b 3 N 1) ((inc N 1) (print N)))))"),
+    # control flow written inside `Sub{ }` acts on the enclosing loop / call
+    ("FOR(INT I=0;I<3;I++){ Sub{ n60 IF(I==1){BREAK} n62 } n64 PRINT(I) } PRINT(I)",
+     "(() ((for I 0 (b 9 I 3) (inc I 1) ((note 60) (if (b 5 I 1) ((break)) ()) (note 62) (note 64) (print I))) (print I)))"),
+    ("INT K=0 WHILE(K<4){ K++ Sub{ IF(K==2){CONTINUE} n60 } PRINT(K) } FUNCTION FF(KA){ Sub{ n61 RETURN(KA+1) n62 } n63 RETURN(0) } PRINT(FF(6))",
+     "(((fn FF ((KA _)) ((note 61) (ret (b 3 KA 1)) (note 62) (note 63) (ret 0)))) ((decl K 0) (while (b 9 K 4) ((inc K 1) (if (b 5 K 2) ((continue)) ()) (note 60) (print K))) (print (call FF (6)))))"),
     # a statement after an IF block whose name begins with ELSE is that statement, not the keyword
     ("INT ELSEV=1 IF(1){ PRINT(5) } ELSEV=2 PRINT(ELSEV) IF(0){ PRINT(6) } ELSEV=3 PRINT(ELSEV)",
      "(() ((decl ELSEV 1) (if 1 ((print 5)) ()) (assign ELSEV 2) (print ELSEV) (if 0 ((print 6)) ()) (assign ELSEV 3) (print ELSEV)))"),
@@ -251,6 +266,7 @@ def streams(tier, rng, P, only=None, cases=None):
             src, sx, nt_ = gen_case(rng, sharp=False)
             cs.append(dict(req="scriptrun " + hx(src), src=src, show=src, nt=nt_, key="x%d" % i))
         for j, (src, sx) in enumerate(FIXED):
+            if "Sub{" in src: continue      # (the literal script model covers the script arms only)
             cs.append(dict(req="scriptrun " + hx(src), src=src, show=src, nt=1, key="xfixed%d" % j))
         for j, src in enumerate(["FUNCTION F(X,Y=2){ RETURN(X+Y) } PRINT(F(1)); F(2,3); F(); PRINT(F())", "INT A=1; FUNCTION G(){ A=5; PRINT(A) } G(); PRINT(A)",
                                  "FUNCTION H(N){ IF(N<=0){ RETURN(0) } RETURN(N+H(N-1)) } PRINT(H(4))", "INT K=0; WHILE(K<3){ K++; IF(K==2){ CONTINUE } PRINT(K) } PRINT(K)",
